@@ -93,6 +93,21 @@ func init() {
 					}
 					return mp.Data(), true
 				})
+			case "ser":
+				// parse (private copy of the bytes), then the value's own serialisation: the slice it hands out is what is kept
+				fn, in := im.Str("fn"), im.Bytes("in")
+				args := im
+				calls = append(calls, func() ([]byte, bool) {
+					rd, ok := readers[fn]
+					if !ok {
+						return nil, false
+					}
+					o := rd(append([]byte{}, in...), args)
+					if !o.OK || !o.SerOK {
+						return nil, false
+					}
+					return o.Ser, true
+				})
 			case "int":
 				fn, v, sz := im.Str("fn"), im.Int("value"), im.Int("size")
 				calls = append(calls, func() ([]byte, bool) { ok, b := encInt(fn, v, sz); return b, ok })
